@@ -21,6 +21,9 @@ import (
 	"verifharness/vlib"
 )
 
+// c17MaskPrev: what a decode destination of a mask type holds before the decode (besides the zero value).
+var c17MaskPrev = []int32{1, 0x0C, -1}
+
 func init() { All["C17"] = Spec{"exploration", runC17} }
 
 type Registry = pinned.Registry
@@ -79,7 +82,7 @@ func GenPinned() error {
 func runC17(c *vlib.Check) {
 	c.Rule = "the whole registry, exhaustively: every 24-bit tag number is probed for a name; every registered tag, every value of every enumeration and every flag of every bit mask is compared with " +
 		"pinned/registry.json in both directions and round-tripped number->name->number and name->number->name through TagString, EnumName/EnumByName, AppendBitmaskString/BitmaskByStr and one-item XML, JSON and text documents; " +
-		"plus unregistered numbers and names per scope; every single bit 0..31 and mixed values of both masks written to XML / JSON and read by the independent reader and the library; every named value is also read into one reused ttlv.Value per text format, right after an item of another enumeration; registration histories: after ttlv.RegisterEnum of one vendor value on each enumeration in turn (and RegisterTag of one tag) every pinned name and number still resolves both ways and the registry is the pinned one plus exactly the extensions. distinct = distinct (scope, name, number) triples"
+		"plus unregistered numbers and names per scope; every single bit 0..31 and mixed values of both masks written to XML / JSON and read by the independent reader and the library, into a fresh variable and into variables already holding 0x1 / 0xC / 0xFFFFFFFF; every named value is also read into one reused ttlv.Value per text format, right after an item of another enumeration; registration histories: after ttlv.RegisterEnum of one vendor value on each enumeration in turn (and RegisterTag of one tag) every pinned name and number still resolves both ways and the registry is the pinned one plus exactly the extensions. distinct = distinct (scope, name, number) triples"
 	c.Assumptions = []string{"pinned/registry.json was generated from the pinned commit and cross-checked against every element and enumeration name of the 419 OASIS vector files and against the specification's tables"}
 	pin, err := LoadPinnedRegistry()
 	if err != nil {
@@ -349,6 +352,13 @@ func runC17(c *vlib.Check) {
 				if pv, _ := vlib.Catch(func() { err = enc.u(doc, back.Interface()) }); pv != nil || err != nil || int32(back.Elem().Int()) != val {
 					v("mask-roundtrip:"+enc.n, "%s value 0x%08X written as %s reads back as 0x%X (err %v, panic %v)", mname, u, doc, uint32(back.Elem().Int()), err, pv)
 				}
+				// the same into a destination that already holds another value (a reused variable, defaults set before decoding)
+				for _, prev := range c17MaskPrev {
+					back.Elem().SetInt(int64(prev))
+					if pv, _ := vlib.Catch(func() { err = enc.u(doc, back.Interface()) }); pv != nil || err != nil || int32(back.Elem().Int()) != val {
+						v("mask-reused-target:"+enc.n, "%s value 0x%08X written as %s reads as 0x%X into a variable that held 0x%X (err %v, panic %v)", mname, u, doc, uint32(back.Elem().Int()), uint32(prev), err, pv)
+					}
+				}
 			}
 			// MarshalText / UnmarshalText of the typed value
 			if m, ok := item.(encoding.TextMarshaler); ok {
@@ -357,6 +367,12 @@ func runC17(c *vlib.Check) {
 				if um, ok2 := back.Interface().(encoding.TextUnmarshaler); ok2 && terr == nil {
 					if uerr := um.UnmarshalText(txt); uerr != nil || int32(back.Elem().Int()) != val {
 						v("mask-text-roundtrip", "%s value 0x%08X: MarshalText gives %q, UnmarshalText of it gives 0x%X (%v)", mname, u, txt, uint32(back.Elem().Int()), uerr)
+					}
+					for _, prev := range c17MaskPrev {
+						back.Elem().SetInt(int64(prev))
+						if uerr := um.UnmarshalText(txt); uerr != nil || int32(back.Elem().Int()) != val {
+							v("mask-text-reused-target", "%s value 0x%08X: MarshalText gives %q; UnmarshalText of it into a variable that held 0x%X gives 0x%X (%v)", mname, u, txt, uint32(prev), uint32(back.Elem().Int()), uerr)
+						}
 					}
 				}
 			}
